@@ -14,6 +14,7 @@ UNITS = [
     (M, "Broker.get"),
     (M, "run_components"),
     (M, "run@evaluate"),
+    (M, "walk_dependencies.<locals>.visit"), (M, "walk_dependencies"), (M, "get_dependency_graph.<locals>.visitor"),
 ]
 
 # C01-L1: contracts only.  `ordered` is what run_order returned for `graph`; att/attpos is the attempt log that
@@ -43,7 +44,10 @@ NOT_CARRIED = ["a component body that itself writes Broker.instances (bodies are
                "dr.run: the body from the SerializedArchiveContext pruning branch to the end is under contract (run@evaluate: at most once, a "
                "dependency never attempted after its dependent, seeds kept, the evaluated graph is a sub-graph of the given one); the three "
                "argument-normalisation lines before it (default group, determine_components, default broker) are not executed",
-               "get_dependency_graph / walk_dependencies (closure over mutable state): not under contract"]
+               "dependency closure: walk_dependencies, its recursive visit and the visitor of get_dependency_graph are under contract (the walked graph is "
+               "closed under declared dependencies and contains the target; the real visitor records exactly the edge parent -> child); the rest of "
+               "get_dependency_graph's body (registration test, dict(graph), adding empty entries for leaf components) is not executed; termination of "
+               "the recursive walk on an acyclic registry is not proved"]
 
 
 def bounded(check):
